@@ -601,7 +601,8 @@ impl SparqlDatabase {
                 if i == 0 {
                     output.push(' ');
                 } else {
-                    output.push_str(" ;\n    ");
+                    // One statement per line: `parse_turtle` keeps subject and predicate per line.
+                    output.push_str(" ; ");
                 }
                 output.push_str(&format!("<{}>", predicate));
 
